@@ -7,6 +7,7 @@
 #include <igris/datastruct/dlist.h>
 #include <igris/datastruct/hlist.h>
 #include <igris/datastruct/slist.h>
+#include <memory>
 #include <string>
 #include <vector>
 
@@ -1064,8 +1065,126 @@ struct HlistModel : mc::Model
     }
 };
 
+// ================================================================ E. long lists (any number of nodes)
+// Sizes around 1000 (dlist_check's customary step limit) and 65536: counting and traversal must not depend
+// on a bounded helper or a narrow counter.
+static void long_lists()
+{
+    static const int NS[] = {255, 256, 257, 999, 1000, 1001, 1100, 65535, 65536, 65537};
+    int n = NS[mc::choose(mc::thorough() ? 10 : 7)];
+    int flavour = mc::choose(4);
+    mc::describe("%d nodes, %s", n, flavour == 0 ? "C dlist" : flavour == 1 ? "C++ dlist" : flavour == 2 ? "slist" : "hlist");
+    mc::nontrivial();
+    if (flavour == 0)
+    {
+        std::vector<CItem> it(n + 1);
+        struct dlist_head *h = &it[n].lnk, *pos;
+        dlist_init(h);
+        for (int i = 0; i < n; i++)
+        {
+            it[i].key = i;
+            if (i % 2)
+                dlist_add_prev(&it[i].lnk, h);
+            else
+                dlist_add_next(&it[i].lnk, h);
+        }
+        mc::crash_context("C01.c_dlist.long_list.crash");
+        long cnt = 0, rcnt = 0;
+        dlist_for_each(pos, h) cnt++;
+        dlist_for_each_reverse(pos, h) rcnt++;
+        if (dlist_size(h) != n || dlist_size_reversed(h) != n || cnt != n || rcnt != n || dlist_empty(h))
+            mc::violation("C01.c_dlist.long_list.size_queries", "%d nodes: dlist_size=%d dlist_size_reversed=%d for_each=%ld reverse=%ld", n,
+                          dlist_size(h), dlist_size_reversed(h), cnt, rcnt);
+        // the node linked first with add_prev is at the tail end, the last add_next one at the front
+        if (!dlist_in(&it[n - 1].lnk, h) || !dlist_in(&it[0].lnk, h) || dlist_in(h, &it[0].lnk) == 0)
+            mc::violation("C01.c_dlist.long_list.membership", "%d nodes: dlist_in wrong for a far node", n);
+        // remove every other node, re-count
+        for (int i = 0; i < n; i += 2)
+            dlist_del_init(&it[i].lnk);
+        if (dlist_size(h) != n / 2 || dlist_size_reversed(h) != n / 2)
+            mc::violation("C01.c_dlist.long_list.size_queries", "%d nodes after removing every other: size %d want %d", n, dlist_size(h), n / 2);
+    }
+    else if (flavour == 1)
+    {
+        XList q;
+        std::vector<std::unique_ptr<XItem>> it;
+        for (int i = 0; i < n; i++)
+        {
+            it.emplace_back(new XItem(i));
+            if (i % 2)
+                q.move_back(*it.back());
+            else
+                q.move_front(*it.back());
+        }
+        mc::crash_context("C01.cxx_dlist.long_list.crash");
+        long cnt = 0, rcnt = 0;
+        for (auto i = q.begin(); i != q.end(); ++i)
+            cnt++;
+        for (auto i = q.rbegin(); i != q.rend(); ++i)
+            rcnt++;
+        if ((long)q.size() != n || cnt != n || rcnt != n || !q.is_correct() || q.empty())
+            mc::violation("C01.cxx_dlist.long_list.size_queries", "%d nodes: size=%zu forward=%ld backward=%ld is_correct=%d", n, q.size(), cnt, rcnt,
+                          (int)q.is_correct());
+        for (int i = 0; i < n; i += 2)
+            it[i].reset(); // destroying a node unlinks it
+        if ((long)q.size() != n / 2)
+            mc::violation("C01.cxx_dlist.long_list.size_queries", "%d nodes after destroying every other: size %zu want %d", n, q.size(), n / 2);
+        q.clear();
+        for (auto &p : it)
+            if (p && p->lnk.is_linked())
+            {
+                mc::violation("C01.cxx_dlist.long_list.is_linked", "a node is still linked after clear()");
+                break;
+            }
+    }
+    else if (flavour == 2)
+    {
+        std::vector<SItem> it(n);
+        struct slist_head h;
+        slist_init(&h);
+        for (int i = 0; i < n; i++)
+        {
+            it[i].id = i;
+            slist_add(&it[i].lnk, &h);
+        }
+        mc::crash_context("C01.slist.long_list.crash");
+        if (slist_size(&h) != n || !slist_in(&h, &it[0].lnk) || !slist_in(&h, &it[n - 1].lnk))
+            mc::violation("C01.slist.long_list.size_queries", "%d nodes: slist_size=%d", n, slist_size(&h));
+        long popped = 0;
+        while (slist_pop_first(&h))
+            popped++;
+        if (popped != n || !slist_empty(&h))
+            mc::violation("C01.slist.long_list.pop_first", "%d nodes: popped %ld", n, popped);
+    }
+    else
+    {
+        std::vector<HItem> it(n);
+        struct hlist_head h;
+        hlist_head_init(&h);
+        for (int i = 0; i < n; i++)
+        {
+            it[i].id = i;
+            hlist_node_init(&it[i].lnk);
+            hlist_add_next(&it[i].lnk, &h.first);
+        }
+        mc::crash_context("C01.hlist.long_list.crash");
+        long cnt = 0, ecnt = 0;
+        struct hlist_node *pos;
+        HItem *e;
+        hlist_for_each(pos, &h) cnt++;
+        hlist_for_each_entry(e, &h, lnk) ecnt++;
+        for (int i = 0; i < n; i += 2)
+            hlist_del(&it[i].lnk);
+        long cnt2 = 0;
+        hlist_for_each(pos, &h) cnt2++;
+        if (cnt != n || ecnt != n || cnt2 != n / 2)
+            mc::violation("C01.hlist.long_list.forward", "%d nodes: for_each=%ld for_each_entry=%ld after deleting every other=%ld", n, cnt, ecnt, cnt2);
+    }
+}
+
 MC_INIT
 {
+    mc::add_check("long_lists", long_lists);
     mc::add_bfs("c_dlist", [] { return std::unique_ptr<mc::Model>(new CDlist); });
     mc::add_bfs("cxx_dlist", [] { return std::unique_ptr<mc::Model>(new XDlist); });
     mc::add_bfs("slist", [] { return std::unique_ptr<mc::Model>(new SlistModel); });
